@@ -1,3 +1,306 @@
-import StirVerif.C04.Model
+/-
+C04 — "Matched projector pairs are linear, adjoint and additive over pieces".
+
+Property theorems over the model of `Model.lean`.  `K` is an arbitrary commutative ring with decidable equality (the
+driver runs the same definitions at `K = Rat`); `rows : Bin → Row K` is an **arbitrary** family of sparse rows, `ig` an
+arbitrary image grid/layout, `idx` the layout of the projection data, `G`/`S` arbitrary index ranges and symmetry tables:
+nothing is assumed about what the rows are, how long they are, how many bins, views, subsets or voxels there are.
+Hypotheses that do appear are explicit:
+* `InjOn idx bins` — the layout does not store two different bins of the list at the same place (property C02);
+* `idx b < d.size` — the bin is inside the data array (the model's `setIfInBounds` ignores writes outside);
+* `RelPartition rel r` — the related-position lists of the symmetries partition the requested range (what
+  `get_related_bins_factorised` has to deliver for the `already_processed` loop to be right; it does **not** for
+  BlocksOnCylindrical/Generic TOF data, see `C04_explicit_branch_needs_reflexive_rel_fails`);
+* `StepsDisjoint` — the related-viewgram sets processed for a subset are disjoint (property C06).
+Each is shown satisfiable by a concrete instance in the `example`s.
+-/
+import StirVerif.C04.ProofsSubset
+
+set_option linter.unusedSectionVars false
+set_option linter.unusedSimpArgs false
+
 namespace StirVerif.C04
+
+variable {K : Type} [CommRing K] [DecidableEq K]
+variable (rows : Bin → Row K) (ig : ImgGeom) (idx : Bin → Nat) (G : PDGeom) (S : Syms)
+
+/-! ## linearity -/
+
+/-- "projection is linear" — one row (`ProjMatrixElemsForOneBin::forward_project`): `A(c·x + x') = c·A x + A x'`,
+    also in the value the bin comes in with. -/
+theorem C04_fwd_row_linear (row : Row K) (c : K) (x x' : Array K) (h : x.size = x'.size) (a a' : K) :
+    fwdRow ig row (axpy c x x') (c * a + a') = c * fwdRow ig row x a + fwdRow ig row x' a' :=
+  fwdRow_axpy ig row c x x' h a a'
+
+/-- "projection is linear" — forward projection of any sequence of bins (viewgram, related viewgrams, subset,
+    sub-range), read at any processed bin. -/
+theorem C04_fwd_linear (c : K) (x x' d : Array K) (hx : x.size = x'.size) (bins : List Bin) (hinj : InjOn idx bins)
+    (hsz : ∀ b ∈ bins, idx b < d.size) (b : Bin) (hb : b ∈ bins) :
+    (fwdBins rows ig idx (axpy c x x') bins d).getD (idx b) 0
+      = c * (fwdBins rows ig idx x bins d).getD (idx b) 0 + (fwdBins rows ig idx x' bins d).getD (idx b) 0 := by
+  rw [getD_fwdBins_mem rows ig idx _ d bins hinj b hb (hsz b hb), getD_fwdBins_mem rows ig idx _ d bins hinj b hb (hsz b hb),
+    getD_fwdBins_mem rows ig idx _ d bins hinj b hb (hsz b hb)]
+  have := fwdRow_axpy ig (rows b) c x x' hx 0 0
+  simpa using this
+
+/-- "projection is linear" — back projection of any sequence of bins is linear in the data, at every voxel
+    (the `data == 0` short cuts do not break it). -/
+theorem C04_bck_linear (c : K) (y y' : Array K) (hy : y.size = y'.size) (bins : List Bin) (n i : Nat) (hi : i < n) :
+    (bckBins rows ig idx (axpy c y y') bins (zeroImg n)).getD i 0
+      = c * (bckBins rows ig idx y bins (zeroImg n)).getD i 0 + (bckBins rows ig idx y' bins (zeroImg n)).getD i 0 := by
+  have hz : i < (zeroImg n : Array K).size := by rw [size_zeroImg]; exact hi
+  rw [getD_bckBins _ _ _ _ _ _ _ hz, getD_bckBins _ _ _ _ _ _ _ hz, getD_bckBins _ _ _ _ _ _ _ hz, getD_zeroImg,
+    bckSum_axpy rows ig idx c y y' hy]
+  ring
+
+/-! ## adjointness -/
+
+/-- "the two operations are adjoint, ⟨A x, y⟩ = ⟨x, Aᵀ y⟩ for all images x and data y" — for the rows of **any** finite
+    sequence of bins, hence for the full data set, every subset, every symmetry group of viewgrams and every axial or
+    tangential sub-range (they are all sequences of bins): the forward projection written into the data `d` by the model
+    and read back at the bins, against the back projection accumulated by the model into a zero image. -/
+theorem C04_adjoint (x y d : Array K) (bins : List Bin) (hinj : InjOn idx bins) (hsz : ∀ b ∈ bins, idx b < d.size) :
+    dotBins idx (fwdBins rows ig idx x bins d) y bins = dotImg x (bckBins rows ig idx y bins (zeroImg x.size)) :=
+  adjoint_bins rows ig idx x y d bins hinj hsz
+
+/-- … "for every symmetry group of viewgrams and axial or tangential sub-range that can be requested": the same for
+    `actual_forward_project` / `actual_back_project` on related viewgrams `vgs` over the range `r`, in **either** branch
+    (cache enabled / explicit symmetries), whatever the related-position lists `rel` are. -/
+theorem C04_adjoint_related (cache : Bool) (rel : Int → Int → List (Int × Int)) (vgs : List VG) (r : Range) (x y d : Array K)
+    (hinj : InjOn idx (branchBins cache rel vgs r)) (hsz : ∀ b ∈ branchBins cache rel vgs r, idx b < d.size) :
+    dotBins idx (fwdRelated rows ig idx cache rel vgs r x d) y (branchBins cache rel vgs r)
+      = dotImg x (bckRelated rows ig idx cache rel vgs r y (zeroImg x.size)) :=
+  adjoint_bins rows ig idx x y d _ hinj hsz
+
+/-- … "for the full data set and for every subset": `ForwardProjectorByBin::forward_project(proj_data, subset_num,
+    num_subsets, zero)` against `BackProjectorByBin::back_project(proj_data, subset_num, num_subsets)`, for every
+    `0 ≤ subset_num < num_subsets`, both values of `zero`, either branch — the inner product taken over the bins the
+    projectors process for that subset. -/
+theorem C04_adjoint_subset (cache : Bool) (x y d : Array K) (i n : Int) (zero : Bool) (hi : 0 ≤ i) (hin : i ≤ n - 1)
+    (hinj : InjOn idx (stepBins (stepZ G S) (stepP G S cache) (subsetSteps G S i n)))
+    (hdis : StepsDisjoint (stepZ G S) (stepP G S cache) (subsetSteps G S i n))
+    (hsz : ∀ b ∈ stepBins (stepZ G S) (stepP G S cache) (subsetSteps G S i n), idx b < d.size) :
+    ∃ out, fwdSubset rows ig idx G S cache x d i n zero = some out ∧
+      dotBins idx out y ((subsetSteps G S i n).flatMap (stepP G S cache))
+        = dotImg x (bckSubset rows ig idx G S cache y i n (zeroImg x.size)) := by
+  refine ⟨fwdSteps rows ig idx (stepZ G S) (stepP G S cache) x (subsetSteps G S i n)
+    (if zero && decide (n > 1) then fillZero d else d), ?_, ?_⟩
+  · rw [fwdSubset_eq]; simp [not_lt.mpr hi, not_lt.mpr hin]
+  · set allP := (subsetSteps G S i n).flatMap (stepP G S cache) with hallP
+    set d0 := (if zero && decide (n > 1) then fillZero d else d) with hd0
+    have hd0sz : d0.size = d.size := by
+      rw [hd0]; split <;> simp [size_fillZero]
+    have hsub : ∀ b ∈ allP, b ∈ stepBins (stepZ G S) (stepP G S cache) (subsetSteps G S i n) := by
+      intro b hb
+      obtain ⟨q, hq, hbq⟩ := List.mem_flatMap.mp hb
+      exact List.mem_flatMap.mpr ⟨q, hq, List.mem_append_right _ hbq⟩
+    have hinjP : InjOn idx allP := hinj.sublist hsub
+    rw [bckSubset_eq, ← adjoint_bins rows ig idx x y d0 allP hinjP (fun b hb => by rw [hd0sz]; exact hsz b (hsub b hb))]
+    apply dotBins_congr
+    intro b hb
+    obtain ⟨q, hq, hbq⟩ := List.mem_flatMap.mp hb
+    rw [(getD_fwdSteps_mem rows ig idx (stepZ G S) (stepP G S cache) x d0 _ hinj hdis
+        (fun b hb => by rw [hd0sz]; exact hsz b hb) q hq b).1 hbq,
+      getD_fwdBins_mem rows ig idx x d0 allP hinjP b hb (by rw [hd0sz]; exact hsz b (hsub b hb))]
+
+/-! ## additivity over pieces -/
+
+/-- "projecting piecewise and adding the pieces equals projecting at once" — back projection: for any split of a
+    sequence of bins `whole` into pieces (in any order: `pieces.flatten` is a permutation of `whole`), the sum of the
+    back projections of the pieces is the back projection of the whole, at every voxel. -/
+theorem C04_additive_over_pieces_bck (y : Array K) (pieces : List (List Bin)) (whole : List Bin)
+    (hp : pieces.flatten.Perm whole) (n i : Nat) (hi : i < n) :
+    (pieces.map fun p => (bckBins rows ig idx y p (zeroImg n)).getD i 0).sum
+      = (bckBins rows ig idx y whole (zeroImg n)).getD i 0 := by
+  have hz : i < (zeroImg n : Array K).size := by rw [size_zeroImg]; exact hi
+  rw [getD_bckBins _ _ _ _ _ _ _ hz, getD_zeroImg, zero_add, ← bckSum_perm rows ig idx y hp, bckSum_flatten]
+  congr 1
+  apply List.map_congr_left
+  intro p _
+  rw [getD_bckBins _ _ _ _ _ _ _ hz, getD_zeroImg, zero_add]
+
+/-- … forward projection: projecting the pieces one after the other into the same data gives, at every place of the
+    data, what projecting the whole at once gives (for a layout that keeps the bins of `whole` apart). -/
+theorem C04_additive_over_pieces_fwd (x d : Array K) (pieces : List (List Bin)) (whole : List Bin)
+    (hp : pieces.flatten.Perm whole) (hinj : InjOn idx whole) (hsz : ∀ b ∈ whole, idx b < d.size) (j : Nat) :
+    (pieces.foldl (fun d p => fwdBins rows ig idx x p d) d).getD j 0 = (fwdBins rows ig idx x whole d).getD j 0 := by
+  rw [fwdPieces_eq]
+  exact getD_fwdBins_perm rows ig idx x d hp (hinj.perm hp) (fun b hb => hsz b (hp.mem_iff.mp hb)) j
+
+/-! ## frame of the forward projection -/
+
+/-- `forward_project(proj_data, subset_num, num_subsets, zero)` is an error exactly for `subset_num < 0` or
+    `subset_num > num_subsets - 1` (so in particular for every `num_subsets ≤ 0`). -/
+theorem C04_fwd_subset_error_iff (cache : Bool) (x d : Array K) (i n : Int) (zero : Bool) :
+    fwdSubset rows ig idx G S cache x d i n zero = none ↔ (i < 0 ∨ i > n - 1) := by
+  rw [fwdSubset_eq]
+  by_cases h1 : i < 0
+  · simp [h1]
+  · by_cases h2 : i > n - 1
+    · simp [h1, h2]
+    · simp [h1, h2]
+
+/-- "Forward projecting a subset of a data set leaves all other bins unchanged, or sets them to zero when zeroing is
+    requested": every place of the data that does not belong to a related viewgram processed for the subset keeps its value
+    when `zero = false`, and is 0 when `zero = true ∧ num_subsets > 1`.  The `num_subsets = 1` corner is as in the code:
+    with `zero = true` nothing is zeroed either (`if (zero && num_subsets > 1) proj_data.fill(0)`), a place that no related
+    viewgram covers keeps its old value. -/
+theorem C04_fwd_subset_frame (cache : Bool) (x d out : Array K) (i n : Int) (zero : Bool)
+    (h : fwdSubset rows ig idx G S cache x d i n zero = some out) (j : Nat)
+    (hj : j ∉ touched idx (stepZ G S) (stepP G S cache) (subsetSteps G S i n)) :
+    out.getD j 0 = if zero && decide (n > 1) then 0 else d.getD j 0 := by
+  rw [fwdSubset_eq] at h
+  by_cases h1 : i < 0
+  · simp [h1] at h
+  · by_cases h2 : i > n - 1
+    · simp [h1, h2] at h
+    · simp only [h1, h2, if_false, Option.some.injEq] at h
+      rw [← h, getD_fwdSteps_not_mem _ _ _ _ _ _ _ _ _ hj]
+      by_cases hz : (zero && decide (n > 1)) = true
+      · simp only [hz, if_true]; exact getD_fillZero d j
+      · simp only [hz]
+        simp
+
+/-- … and inside the subset: every bin the branch processes holds the forward projection of its row, every other bin of
+    the related viewgrams (written back whole from `get_empty_related_viewgrams`) holds 0 — given disjoint related sets
+    (C06) and an injective layout (C02). -/
+theorem C04_fwd_subset_value (cache : Bool) (x d out : Array K) (i n : Int) (zero : Bool)
+    (h : fwdSubset rows ig idx G S cache x d i n zero = some out)
+    (hinj : InjOn idx (stepBins (stepZ G S) (stepP G S cache) (subsetSteps G S i n)))
+    (hdis : StepsDisjoint (stepZ G S) (stepP G S cache) (subsetSteps G S i n))
+    (hsz : ∀ b ∈ stepBins (stepZ G S) (stepP G S cache) (subsetSteps G S i n), idx b < d.size)
+    (q : Int × Int × Int) (hq : q ∈ subsetSteps G S i n) (b : Bin) :
+    (b ∈ stepP G S cache q → out.getD (idx b) 0 = fwdRow ig (rows b) x 0)
+    ∧ (b ∈ stepZ G S q → b ∉ stepP G S cache q → out.getD (idx b) 0 = 0) := by
+  rw [fwdSubset_eq] at h
+  by_cases h1 : i < 0
+  · simp [h1] at h
+  · by_cases h2 : i > n - 1
+    · simp [h1, h2] at h
+    · simp only [h1, h2, if_false, Option.some.injEq] at h
+      rw [← h]
+      refine getD_fwdSteps_mem rows ig idx (stepZ G S) (stepP G S cache) x _ _ hinj hdis ?_ q hq b
+      intro b hb
+      have : (if zero && decide (n > 1) then fillZero d else d).size = d.size := by split <;> simp [size_fillZero]
+      rw [this]; exact hsz b hb
+
+/-- the forward projection of bins (any sequence) never touches a place that is not the place of one of them, and writes
+    the row sum at the place of each of them: frame + value for viewgrams, related viewgrams and sub-ranges. -/
+theorem C04_fwd_bins_frame_and_value (x d : Array K) (bins : List Bin) :
+    (∀ j, j ∉ bins.map idx → (fwdBins rows ig idx x bins d).getD j 0 = d.getD j 0)
+    ∧ (InjOn idx bins → ∀ b ∈ bins, idx b < d.size → (fwdBins rows ig idx x bins d).getD (idx b) 0 = fwdRow ig (rows b) x 0) :=
+  ⟨fun j hj => getD_fwdBins_not_mem rows ig idx x d bins j hj,
+   fun hinj b hb hs => getD_fwdBins_mem rows ig idx x d bins hinj b hb hs⟩
+
+/-! ## accumulation of the back projection -/
+
+/-- "back projection accumulates without disturbing earlier contributions": back projecting any sequence of bins into a
+    target that already holds `im` gives, at every voxel, `im` plus what the same back projection gives from zero. -/
+theorem C04_bck_accumulates (y im : Array K) (bins : List Bin) (i : Nat) (hi : i < im.size) :
+    (bckBins rows ig idx y bins im).getD i 0 = im.getD i 0 + (bckBins rows ig idx y bins (zeroImg im.size)).getD i 0 := by
+  have hz : i < (zeroImg im.size : Array K).size := by rw [size_zeroImg]; exact hi
+  rw [getD_bckBins _ _ _ _ _ _ _ hi, getD_bckBins _ _ _ _ _ _ _ hz, getD_zeroImg, zero_add]
+
+/-- … at the level of the projector's state: after `start_accumulating_in_new_target`, two successive
+    `back_project(proj_data, subset, num_subsets)` calls (any data, any subsets) leave the sum of the two separate back
+    projections in the target; the values the target had before `start_accumulating_in_new_target` play no role. -/
+theorem C04_backproj_two_calls (cache : Bool) (s : BackProj K) (y1 y2 : Array K) (i1 n1 i2 n2 : Int) (v : Nat)
+    (hv : v < s.density.size) :
+    (BackProj.backSubset rows ig idx G S cache (BackProj.backSubset rows ig idx G S cache s.start y1 i1 n1) y2 i2 n2).getOutput.getD v 0
+      = (bckSubset rows ig idx G S cache y1 i1 n1 (zeroImg s.density.size)).getD v 0
+        + (bckSubset rows ig idx G S cache y2 i2 n2 (zeroImg s.density.size)).getD v 0 := by
+  simp only [BackProj.backSubset, BackProj.getOutput, BackProj.start, bckSubset_eq, fillZero_eq]
+  have hz : v < (zeroImg s.density.size : Array K).size := by rw [size_zeroImg]; exact hv
+  rw [getD_bckBins _ _ _ _ _ _ _ (by rw [size_bckBins]; exact hz), getD_bckBins _ _ _ _ _ _ _ hz,
+    getD_bckBins _ _ _ _ _ _ _ hz, getD_zeroImg]
+  ring
+
+/-- `back_project(image, proj_data, subset, num_subsets)` (= start; back_project; get_output) returns the back projection
+    from zero: neither the previous contents of the target nor those of `image` enter. -/
+theorem C04_backproj_backInto (cache : Bool) (s : BackProj K) (y : Array K) (i n : Int) :
+    (BackProj.backInto rows ig idx G S cache s y i n).2 = bckSubset rows ig idx G S cache y i n (zeroImg s.density.size) := by
+  simp [BackProj.backInto, BackProj.backSubset, BackProj.getOutput, BackProj.start, fillZero_eq]
+
+/-! ## the two branches -/
+
+/-- the `already_processed` loop of the explicit-symmetries branch visits every position of the requested range exactly
+    once, if the related-position lists partition the range. -/
+theorem C04_explicit_branch_visits_once (rel : Int → Int → List (Int × Int)) (r : Range) (H : RelPartition rel r) :
+    (explicitPositions rel r).Perm (rangePositions r) :=
+  explicitPositions_perm H
+
+/-- then the explicit-symmetries branch back projects exactly what the per-bin (cache enabled) branch back projects … -/
+theorem C04_branches_agree_bck (rel : Int → Int → List (Int × Int)) (r : Range) (H : RelPartition rel r) (vgs : List VG)
+    (y im : Array K) (i : Nat) (hi : i < im.size) :
+    (bckRelated rows ig idx false rel vgs r y im).getD i 0 = (bckRelated rows ig idx true rel vgs r y im).getD i 0 :=
+  getD_bckBins_perm rows ig idx y im ((branchBins_perm H vgs false).trans (branchBins_perm H vgs true).symm) i hi
+
+/-- … and forward projects the same values into the same places (and leaves the same places alone). -/
+theorem C04_branches_agree_fwd (rel : Int → Int → List (Int × Int)) (r : Range) (H : RelPartition rel r) (vgs : List VG)
+    (x d : Array K) (hinj : InjOn idx (binsPerBin vgs r)) (hsz : ∀ b ∈ binsPerBin vgs r, idx b < d.size) (j : Nat) :
+    (fwdRelated rows ig idx false rel vgs r x d).getD j 0 = (fwdRelated rows ig idx true rel vgs r x d).getD j 0 := by
+  have hp := (branchBins_perm (rel := rel) H vgs false).trans (branchBins_perm H vgs true).symm
+  have hp1 := branchBins_perm (rel := rel) H vgs false
+  exact getD_fwdBins_perm rows ig idx x d hp (hinj.perm hp1) (fun b hb => hsz b (hp1.mem_iff.mp hb)) j
+
+/-- **negative witness** (replayed on the implementation by the harness, reported as known candidate
+    `explicit-symmetries-branch-skips-bins-with-nonzero-timing-pos:BlocksOnCylindrical:cache-disabled`): without the
+    hypothesis the statement is false.  If the symmetries hand out an empty related-position list — which is what
+    `DataSymmetriesForBins_PET_CartesianGrid::get_related_bins_factorised` does for BlocksOnCylindrical and Generic
+    scanners whenever the timing position is not 0 (it compares against a bin built without the timing position) — the
+    explicit-symmetries branch processes no bin at all, while the per-bin branch processes the whole range. -/
+theorem C04_explicit_branch_needs_reflexive_rel_fails :
+    ¬ (∀ (rel : Int → Int → List (Int × Int)) (vgs : List VG) (r : Range), (binsExplicit rel vgs r).Perm (binsPerBin vgs r)) := by
+  intro h
+  have h1 := (h (fun _ _ => []) [⟨0, 0, 1⟩] ⟨0, 1, -1, 1⟩).length_eq
+  revert h1
+  decide
+
+/-! ## non-vacuity: concrete instances of the hypotheses -/
+
+/-- the hypothesis of the branch theorems holds for the cylindrical symmetries, on a full and on a clipped range -/
+example : RelPartition (relCyl ⟨0, 2, -2, 2⟩) ⟨0, 2, -2, 2⟩ := relPartition_of_check _ _ (by decide)
+example : RelPartition (relCyl ⟨0, 2, -2, 2⟩) ⟨1, 2, -1, 2⟩ := relPartition_of_check _ _ (by decide)
+
+/-- … and the loop then really produces the 15 positions, each once -/
+example : (explicitPositions (relCyl ⟨0, 2, -2, 2⟩) ⟨0, 2, -2, 2⟩).length = 15 := by decide
+
+/-- a small projection-data layout: 2 views × 3 axial × 5 tangential positions, segment 0, no TOF -/
+def exIdx (b : Bin) : Nat := ((b.view * 3 + b.ax) * 5 + (b.tang + 2)).toNat
+
+/-- the layout hypothesis holds for two related viewgrams over the full range, in both branches -/
+example : InjOn exIdx (branchBins true (relCyl ⟨0, 2, -2, 2⟩) [⟨0, 0, 0⟩, ⟨0, 1, 0⟩] ⟨0, 2, -2, 2⟩) := by
+  unfold InjOn; decide
+example : InjOn exIdx (branchBins false (relCyl ⟨0, 2, -2, 2⟩) [⟨0, 0, 0⟩, ⟨0, 1, 0⟩] ⟨0, 2, -2, 2⟩) := by
+  unfold InjOn; decide
+
+/-- a small data set: 4 views, segment 0, 2 axial × 3 tangential positions; views 0,1 basic, view v+2 related to v -/
+def exG : PDGeom := ⟨0, 0, 0, 3, -1, 1, 0, 0, fun _ => 0, fun _ => 1⟩
+def exS : Syms := ⟨fun v _ => decide (v < 2), fun v s => [(v, s), (v + 2, s)], fun _ _ _ => relCyl ⟨0, 1, -1, 1⟩⟩
+def exIdx2 (b : Bin) : Nat := ((b.view * 2 + b.ax) * 3 + (b.tang + 1)).toNat
+
+/-- the hypotheses of `C04_adjoint_subset` / `C04_fwd_subset_value` hold for subset 1 of 2 of that data set (it consists of
+    the related viewgrams {1, 3}), in both branches -/
+example : InjOn exIdx2 (stepBins (stepZ exG exS) (stepP exG exS false) (subsetSteps exG exS 1 2))
+    ∧ StepsDisjoint (stepZ exG exS) (stepP exG exS false) (subsetSteps exG exS 1 2)
+    ∧ (∀ b ∈ stepBins (stepZ exG exS) (stepP exG exS false) (subsetSteps exG exS 1 2), exIdx2 b < 24)
+    ∧ subsetSteps exG exS 1 2 = [(1, 0, 0)] := by
+  unfold InjOn StepsDisjoint; decide
+
+/-- … and for the whole data (1 subset): two disjoint steps -/
+example : InjOn exIdx2 (stepBins (stepZ exG exS) (stepP exG exS true) (subsetSteps exG exS 0 1))
+    ∧ StepsDisjoint (stepZ exG exS) (stepP exG exS true) (subsetSteps exG exS 0 1)
+    ∧ subsetSteps exG exS 0 1 = [(0, 0, 0), (1, 0, 0)] := by
+  unfold InjOn StepsDisjoint; decide
+
+/-- frame: the places of views 0 and 2 are not touched when subset 1 of 2 is projected -/
+example : (5 : Nat) ∉ touched exIdx2 (stepZ exG exS) (stepP exG exS true) (subsetSteps exG exS 1 2)
+    ∧ (12 : Nat) ∉ touched exIdx2 (stepZ exG exS) (stepP exG exS true) (subsetSteps exG exS 1 2)
+    ∧ (6 : Nat) ∈ touched exIdx2 (stepZ exG exS) (stepP exG exS true) (subsetSteps exG exS 1 2) := by decide
+
+/-- the whole chain evaluated on numbers (`K = ℤ`): one row through two voxels, forward and back -/
+example : fwdRow ⟨0, 0, fun v => v.2.2.toNat⟩ [((0, 0, 0), (2 : Int)), ((0, 0, 1), 3), ((5, 0, 1), 7)] #[10, 100] 0 = 320
+    ∧ bckRow ⟨0, 0, fun v => v.2.2.toNat⟩ [((0, 0, 0), (2 : Int)), ((0, 0, 1), 3), ((5, 0, 1), 7)] 4 #[1, 1] = #[9, 13] := by
+  decide
+
 end StirVerif.C04
